@@ -489,6 +489,19 @@ class Facts:
         self.devirtualised = 0
         if self.inline_report.get("inlined"):
             self.devirtualised = inline.devirtualise_polls(d, sorted({c_ for _, c_ in self.inline_report["inlined"]}))
+        # fields of a reference struct grouped into a new private struct are read under their reference names again
+        self.flattened = canon.flatten_new_structs(d) if (changed and os.environ.get("REPE_NO_CANON") != "1") else []
+        self.closure_calls = []
+        if self.inline_report.get("inlined") and os.environ.get("REPE_NO_DESUGAR") != "1":
+            from . import combinators as _comb
+            self.closure_calls = _comb.resolve_closure_calls(d, sorted({c_ for _, c_ in self.inline_report["inlined"]}))
+        self.dropped_closures = []
+        if (self.closure_calls or self.desugared) and os.environ.get("REPE_NO_DESUGAR") != "1":
+            from . import combinators as _comb
+            cands_ = {c_ for _, c_ in self.closure_calls}
+            for p_, k_ in self.desugared:
+                cands_ |= {q_ for q_ in d["bodies"] if q_.startswith(p_.split("::{closure")[0] + "::{closure#")}
+            self.dropped_closures = _comb.drop_orphan_closures(d, cands_)
         # functions that differ from the reference tree get one more normalisation: intra-procedural jump threading of
         # known Result/Option variants (error handling folded into one local that is tested later, etc.)
         self.threaded = {}
